@@ -249,6 +249,68 @@ func init() {
 			return it.ctx.BV(uint64(n), 64)
 		},
 		zz + "Note": func(it *Interp, fr *frame, a []Value) Value { return nil },
+		// Flatten(v): every integer/bool scalar reachable through struct fields, arrays and
+		// pointers of v, in declaration order, as []uint64 (zero/sign-extended by width only).
+		zz + "Flatten": func(it *Interp, fr *frame, a []Value) Value {
+			var out Slice
+			var walk func(v Value, depth int)
+			walk = func(v Value, depth int) {
+				if depth > 12 {
+					return
+				}
+				switch v := v.(type) {
+				case *Term:
+					if v.w == 0 {
+						out = append(out, it.ctx.BoolToBV(v, 64))
+					} else {
+						out = append(out, it.ctx.ZExt(v, 64))
+					}
+				case Struct:
+					for _, f := range v {
+						walk(f, depth+1)
+					}
+				case Array:
+					for _, f := range v {
+						walk(f, depth+1)
+					}
+				case *Value:
+					if v != nil {
+						walk(*v, depth+1)
+					}
+				}
+			}
+			walk(a[0].(Iface).v, 0)
+			if out == nil {
+				out = Slice{}
+			}
+			return out
+		},
+		// FillSymbolic(ptr): every integer/bool scalar field reachable through nested structs
+		// and arrays (not through pointers) becomes a fresh symbolic value.
+		zz + "FillSymbolic": func(it *Interp, fr *frame, a []Value) Value {
+			var walk func(p *Value)
+			walk = func(p *Value) {
+				switch v := (*p).(type) {
+				case *Term:
+					if v.w == 0 {
+						*p = it.fresh("bool", 0)
+					} else {
+						*p = it.fresh(fmt.Sprintf("u%d", v.w), int(v.w))
+					}
+				case Struct:
+					for i := range v {
+						walk(&v[i])
+					}
+				case Array:
+					for i := range v {
+						walk(&v[i])
+					}
+				}
+			}
+			pv := a[0].(Iface).v.(*Value)
+			walk(pv)
+			return nil
+		},
 
 		// ---------- bytealg / runtime ----------
 		"internal/bytealg.IndexByte": func(it *Interp, fr *frame, a []Value) Value {
